@@ -112,6 +112,26 @@ Section C05.
     st_total (evaluate_new V vzero vadd vopp true parts (recalc_fixed V vzero vadd vopp s)) = st_total s /\
     st_cont (evaluate_new V vzero vadd vopp true parts (recalc_fixed V vzero vadd vopp s)) = st_total s.
   Proof. exact (recalc_fixed_total V vzero vadd vopp vadd_assoc vadd_comm vadd_0_l). Qed.
+
+  (* ---- public evaluate_final_combi() on the LIVE object between two legs of a run ----
+     on a state that satisfies the invariant and whose stored area results are the sums of the parts the re-evaluation computes,
+     the re-evaluation from scratch is the IDENTITY on the machine state (result, container value, every area value, new-object
+     marker) ... *)
+  Theorem C05_final_combi_is_identity : forall parts s,
+    Inv V vzero vadd s -> Consistent V vzero vadd parts s -> reevaluate V vzero vadd vopp parts s = s.
+  Proof. exact (final_combi_is_identity V vzero vadd vopp vadd_assoc vadd_comm vadd_0_l vadd_opp_r). Qed.
+  (* ... so continuing the run after it reports the same values at every later stop, for every continuation *)
+  Theorem C05_final_combi_then_continue_unchanged : forall parts steps s,
+    Inv V vzero vadd s -> Consistent V vzero vadd parts s ->
+    run_steps V vzero vadd vopp true steps (reevaluate V vzero vadd vopp parts s) = run_steps V vzero vadd vopp true steps s.
+  Proof. exact (final_combi_then_continue_unchanged V vzero vadd vopp vadd_assoc vadd_comm vadd_0_l vadd_opp_r). Qed.
+  (* REFUTED for a re-evaluation that leaves every object marked new (reinit_new_objects instead of refinement.value = 0): its own
+     value is right, the NEXT evaluation of the driver reports total + total *)
+  Theorem C05_final_combi_marking_new_refuted : forall parts s,
+    Inv V vzero vadd s -> Consistent V vzero vadd parts s ->
+    st_total (final_combi_marks_new V vzero vadd vopp parts s) = st_total s /\
+    st_total (evaluate_new V vzero vadd vopp true parts (final_combi_marks_new V vzero vadd vopp parts s)) = vadd (st_total s) (st_total s).
+  Proof. exact (final_combi_marking_new_doubles V vzero vadd vopp vadd_assoc vadd_comm vadd_0_l vadd_opp_r). Qed.
 End C05.
 Print Assumptions C05_running_total_inv.
 Print Assumptions C05_running_total_inv_alternating.
@@ -125,6 +145,9 @@ Print Assumptions C05_running_total_inv_with_sides.
 Print Assumptions C05_side_evaluations_same_result.
 Print Assumptions C05_recalculate_unchanged_refuted.
 Print Assumptions C05_recalculate_repaired_unchanged.
+Print Assumptions C05_final_combi_is_identity.
+Print Assumptions C05_final_combi_then_continue_unchanged.
+Print Assumptions C05_final_combi_marking_new_refuted.
 
 (* the executable invariant check evaluated on every replayed snapshot is sound *)
 Theorem C05_inv_checkb_sound : forall s : astate Qc, inv_checkb s = true -> Inv Qc 0%Qc Qcplus s.
@@ -187,3 +210,17 @@ Example C05_recalculate_witness :
   st_total s = 9 /\ st_total (evaluate_new Z 0 Z.add Z.opp true zparts1 (recalc_asis Z 0 Z.add Z.opp s)) = 18 /\
   st_total (evaluate_new Z 0 Z.add Z.opp true zparts1 (recalc_fixed Z 0 Z.add Z.opp s)) = 9.
 Proof. repeat split. Qed.
+
+(* evaluate_final_combi() on the live object after the first evaluation, then the run goes on: same states; with the marker left
+   behind the next stop reports 9 + (7 - 2 + 1) + ... wrongly *)
+Example C05_final_combi_live_witness :
+  let s := run_steps Z 0 Z.add Z.opp true [DEvaluate zparts1] (a_init Z 0 [1; 2; 3]) in
+  let rest := [DRefine [2] [4; 5]; DEvaluate zparts2] in
+  Consistent Z 0 Z.add zparts1 s /\
+  reevaluate Z 0 Z.add Z.opp zparts1 s = s /\
+  st_total (run_steps Z 0 Z.add Z.opp true (DFinalCombi zparts1 :: rest) s) = 11 /\
+  st_total (evaluate_new Z 0 Z.add Z.opp true zparts1 (final_combi_marks_new Z 0 Z.add Z.opp zparts1 s)) = 18.
+Proof.
+  split; [|repeat split].
+  intros id v H. cbn in H. destruct H as [H|[H|[H|[]]]]; injection H as <- <-; reflexivity.
+Qed.
